@@ -1,21 +1,662 @@
 package main
 
-import "polyverif/internal/hx"
+// Deposit side of the tm* families (C30): a real committed cosmos-sdk multistore (rootmulti + IAVL, two versions) with
+// real existence and absence proofs, the real cosmos / okex MakeDepositProposal handlers and heimdall VerifySpan.
+//
+//	dep <name> <h> <pf>   MakeDepositProposal: header <name> ("-" = no header bytes), EntranceParam.Height h
+//	span <name> <pf>      polygon.VerifySpan with header <name>
+//	sidechain             registers the side chain (okex reads its CCMC address from the registry)
+//
+// pf = <src>/<kp>/<val>:
+//   src  e<j>r<k> existence proof of item j in store version k | a<j>r<k> absence proof of item j's key in version k |
+//        x bytes that do not decode as a merkle.Proof
+//   kp   = the key path of the src item | k<j> the key path of item j | - empty
+//   val  v<j> the message bytes of item j | ! Extra bytes that do not decode as a CosmosProofValue
+// Items (the same numbering for every router; the store a router reads is its module store: s / evm / bor):
+//   0,1 stored since version 1, 2 stored since version 2 (well-formed messages); 3 stored, bytes that are not a message;
+//   4 (heimdall) a span whose conversion fails; 5,6 never stored: well-formed messages whose byte string reads as the key
+//   path "/s/<key>" (cosmos absence-proof shape); 7 stored under a key of another contract; 8 stored under a short key;
+//   9 stored in the wrong module store.
+// Header app-hash descriptors r1, r2 = root of store version 1, 2.
+
+import (
+	"bytes"
+	"crypto/sha256"
+	"encoding/hex"
+	"fmt"
+	"strconv"
+	"strings"
+	"sync"
+
+	"github.com/cosmos/cosmos-sdk/store/rootmulti"
+	storetypes "github.com/cosmos/cosmos-sdk/store/types"
+	sdk "github.com/cosmos/cosmos-sdk/types"
+	ethcrypto "github.com/ethereum/go-ethereum/crypto"
+	"github.com/polynetwork/poly/common"
+	ccmcom "github.com/polynetwork/poly/native/service/cross_chain_manager/common"
+	ccmcosmos "github.com/polynetwork/poly/native/service/cross_chain_manager/cosmos"
+	ccmokex "github.com/polynetwork/poly/native/service/cross_chain_manager/okex"
+	hscosmos "github.com/polynetwork/poly/native/service/header_sync/cosmos"
+	"github.com/polynetwork/poly/native/service/header_sync/okex"
+	"github.com/polynetwork/poly/native/service/header_sync/polygon"
+	ptypes "github.com/polynetwork/poly/native/service/header_sync/polygon/types"
+	abci "github.com/tendermint/tendermint/abci/types"
+	"github.com/tendermint/tendermint/crypto/merkle"
+	dbm "github.com/tendermint/tm-db"
+	"polyverif/internal/hx"
+)
+
+func init() {
+	families["tmdepcosmos"] = func() hx.Family { return &tmFam{rt: &tm33Router{cosmos: true}, stream: "dep"} }
+	families["tmdepokex"] = func() hx.Family { return &tmFam{rt: &tm33Router{cosmos: false}, stream: "dep"} }
+	families["tmspanheimdall"] = func() hx.Family { return &tmFam{rt: &tmHeimdallRouter{}, stream: "dep"} }
+}
 
 type tmDepState struct{}
 
 func (f *tmFam) resetDep() {}
 
-// appHash resolves an AppHash descriptor: x<k> arbitrary bytes, r<k> root of committed store version k (tmdep).
+var tmCCMC = func() []byte { d := sha256.Sum256([]byte("polyverif-tm-ccmc")); return d[:20] }()
+
+type tmItem struct {
+	store   string
+	key     []byte
+	value   []byte // the message bytes a relayer submits
+	stored  []byte // what the chain stores under key (nil: never stored)
+	since   int    // first version that holds it
+	keyPath string
+}
+
+type tmStoreT struct {
+	ms    *rootmulti.Store
+	keys  map[string]*sdk.KVStoreKey
+	roots map[int][]byte
+	items map[string]map[int]*tmItem // router -> item id -> item
+}
+
+var tmStoreOnce sync.Once
+var tmStoreV *tmStoreT
+
+func tmMsg(txHash []byte, j int) []byte {
+	p := &ccmcom.MakeTxParam{TxHash: txHash, CrossChainID: []byte(fmt.Sprintf("cc-id-%02d", j)), FromContractAddress: bytes.Repeat([]byte{0x11}, 20),
+		ToChainID: 2, ToContractAddress: bytes.Repeat([]byte{0x22}, 20), Method: "unlock", Args: []byte(fmt.Sprintf("args-of-message-%d", j))}
+	sink := common.NewZeroCopySink(nil)
+	p.Serialization(sink)
+	return sink.Bytes()
+}
+
+func tmSpan(j int, goodKey bool) []byte {
+	pk := strings.Repeat("k", 65)
+	if !goodKey {
+		pk = "short"
+	}
+	v := ptypes.HeimdallValidator{ID: ptypes.ValidatorID(j + 1), VotingPower: 10, PubKey: pk, Signer: strings.Repeat("s", 20)}
+	sp := &ptypes.HeimdallSpan{ID: uint64(100 + j), StartBlock: uint64(1000 * j), EndBlock: uint64(1000*j + 999), BorChainId: "137",
+		ValidatorSet: ptypes.HeimdallValidatorSet{Validators: []*ptypes.HeimdallValidator{&v}, Proposer: &v}, SelectedProducers: []ptypes.HeimdallValidator{v}}
+	return ptypes.NewCDC().MustMarshalBinaryBare(sp)
+}
+
+func tmKeyPath(store string, key []byte) string {
+	kp := merkle.KeyPath{}
+	kp = kp.AppendKey([]byte(store), merkle.KeyEncodingURL)
+	kp = kp.AppendKey(key, merkle.KeyEncodingHex)
+	return kp.String()
+}
+
+func tmEvmKey(addr []byte, j int) []byte {
+	h := sha256.Sum256([]byte(fmt.Sprintf("slot-%d", j)))
+	return append(append([]byte{0x05}, addr...), h[:]...)
+}
+
+func tmStore() *tmStoreT {
+	tmStoreOnce.Do(func() {
+		db := dbm.NewMemDB()
+		ms := rootmulti.NewStore(db)
+		ms.SetPruning(storetypes.PruneNothing)
+		keys := map[string]*sdk.KVStoreKey{}
+		for _, n := range []string{"s", "evm", "bor", "acc"} {
+			keys[n] = sdk.NewKVStoreKey(n)
+			ms.MountStoreWithDB(keys[n], storetypes.StoreTypeIAVL, nil)
+		}
+		if err := ms.LoadLatestVersion(); err != nil {
+			panic(err)
+		}
+		st := &tmStoreT{ms: ms, keys: keys, roots: map[int][]byte{}, items: map[string]map[int]*tmItem{"cosmos": {}, "okex": {}, "heimdall": {}}}
+		other := bytes.Repeat([]byte{0x77}, 20)
+		add := func(rt string, j int, store string, key, value, stored []byte, since int) {
+			st.items[rt][j] = &tmItem{store: store, key: key, value: value, stored: stored, since: since, keyPath: tmKeyPath(store, key)}
+		}
+		for j := 0; j <= 3; j++ {
+			since := 1
+			if j == 2 {
+				since = 2
+			}
+			msg := tmMsg([]byte(fmt.Sprintf("source-tx-hash-%d", j)), j)
+			span := tmSpan(j, true)
+			if j == 3 {
+				msg = []byte{0xff, 0xff, 0xff}
+				span = []byte{0xff, 0xff, 0xff}
+			}
+			add("cosmos", j, "s", []byte(fmt.Sprintf("ccm-request-%d", j)), msg, msg, since)
+			add("okex", j, "evm", tmEvmKey(tmCCMC, j), msg, ethcrypto.Keccak256(msg), since)
+			add("heimdall", j, "bor", []byte(fmt.Sprintf("span-%d", j)), span, span, since)
+		}
+		bad := tmSpan(4, false)
+		add("heimdall", 4, "bor", []byte("span-4"), bad, bad, 1)
+		for j := 5; j <= 6; j++ {
+			// TxHash of 47 bytes ('/' as the var-bytes length) that starts with the store name: the serialized message
+			// reads as the key path /s/<rest>
+			tx := []byte("s/" + strings.Repeat(string(rune('A'+j)), 45))
+			msg := tmMsg(tx, j)
+			if msg[0] != '/' || bytes.ContainsAny(msg[3:], "/%") {
+				panic("crafted message is not a key path")
+			}
+			it := &tmItem{store: "s", key: msg[3:], value: msg, stored: nil, since: 0, keyPath: string(msg)}
+			st.items["cosmos"][j] = it
+			st.items["okex"][j] = &tmItem{store: "evm", key: msg[3:], value: msg, keyPath: tmKeyPath("evm", msg[3:])}
+			st.items["heimdall"][j] = &tmItem{store: "bor", key: msg[3:], value: msg, keyPath: tmKeyPath("bor", msg[3:])}
+		}
+		m7 := tmMsg([]byte("source-tx-hash-7"), 7)
+		add("okex", 7, "evm", tmEvmKey(other, 7), m7, ethcrypto.Keccak256(m7), 1)
+		m8 := tmMsg([]byte("source-tx-hash-8"), 8)
+		add("okex", 8, "evm", []byte("short-key"), m8, ethcrypto.Keccak256(m8), 1)
+		m9 := tmMsg([]byte("source-tx-hash-9"), 9)
+		add("okex", 9, "acc", tmEvmKey(tmCCMC, 9), m9, ethcrypto.Keccak256(m9), 1)
+		add("cosmos", 9, "acc", []byte("ccm-request-9"), m9, m9, 1)
+		s9 := tmSpan(9, true)
+		add("heimdall", 9, "acc", []byte("span-9"), s9, s9, 1)
+		for ver := 1; ver <= 2; ver++ {
+			// deterministic insertion order (the shape of an IAVL tree depends on it)
+			for _, rt := range []string{"cosmos", "heimdall", "okex"} {
+				for j := 0; j <= 9; j++ {
+					if it := st.items[rt][j]; it != nil && it.stored != nil && it.since == ver {
+						ms.GetKVStore(keys[it.store]).Set(it.key, it.stored)
+					}
+				}
+			}
+			cid := ms.Commit()
+			st.roots[ver] = cid.Hash
+		}
+		tmStoreV = st
+	})
+	return tmStoreV
+}
+
+// appHash resolves an AppHash descriptor: x<k> arbitrary bytes, r<k> root of committed store version k.
 func (f *tmFam) appHash(s string) []byte {
 	if len(s) > 1 && s[0] == 'x' {
 		return tmArb("app-" + s[1:])
 	}
+	if s == "r1" || s == "r2" {
+		return tmStore().roots[int(s[1]-'0')]
+	}
 	return nil
 }
 
-func (f *tmFam) execDep(r *hx.Run, op []string) string { return "bad-op" }
+type tmPf struct {
+	srcKind byte // e a x
+	srcItem int
+	srcVer  int
+	kp      string // "=", "-", "k<j>"
+	val     string // "v<j>", "!"
+}
 
-func (f *tmFam) execSpan(r *hx.Run, op []string) string { return "bad-op" }
+func tmParsePf(s string) (*tmPf, bool) {
+	parts := strings.Split(s, "/")
+	if len(parts) != 3 {
+		return nil, false
+	}
+	p := &tmPf{kp: parts[1], val: parts[2]}
+	src := parts[0]
+	if src == "x" {
+		p.srcKind = 'x'
+	} else {
+		if len(src) < 4 || (src[0] != 'e' && src[0] != 'a') {
+			return nil, false
+		}
+		r := strings.IndexByte(src, 'r')
+		if r < 0 {
+			return nil, false
+		}
+		j, err1 := strconv.Atoi(src[1:r])
+		k, err2 := strconv.Atoi(src[r+1:])
+		if err1 != nil || err2 != nil || k < 1 || k > 2 || j < 0 || j > 9 {
+			return nil, false
+		}
+		p.srcKind, p.srcItem, p.srcVer = src[0], j, k
+	}
+	okItem := func(t string, pre byte) bool {
+		if len(t) < 2 || t[0] != pre {
+			return false
+		}
+		j, err := strconv.Atoi(t[1:])
+		return err == nil && j >= 0 && j <= 9
+	}
+	if !(p.kp == "=" || p.kp == "-" || okItem(p.kp, 'k')) || !(p.val == "!" || okItem(p.val, 'v')) {
+		return nil, false
+	}
+	if p.kp == "=" && p.srcKind == 'x' {
+		return nil, false
+	}
+	return p, true
+}
 
-func (f *tmFam) genDep(r *hx.Run) {}
+// holds: is item it committed (with exactly its stored bytes) in the state whose root is appHash? Direct read of the
+// committed store, independent of any proof.
+func (st *tmStoreT) holds(it *tmItem, appHash []byte) bool {
+	if it == nil || it.stored == nil {
+		return false
+	}
+	for ver, root := range st.roots {
+		if !bytes.Equal(root, appHash) {
+			continue
+		}
+		cms, err := st.ms.CacheMultiStoreWithVersion(int64(ver))
+		if err != nil {
+			panic(err)
+		}
+		return bytes.Equal(cms.GetKVStore(st.keys[it.store]).Get(it.key), it.stored)
+	}
+	return false
+}
+
+// proofOf: the real proof of a src descriptor (Query with Prove on the committed multistore).
+func (st *tmStoreT) proofOf(it *tmItem, ver int) *merkle.Proof {
+	res := st.ms.Query(abci.RequestQuery{Path: "/" + it.store + "/key", Data: it.key, Prove: true, Height: int64(ver)})
+	if res.Proof == nil {
+		panic("no proof: " + res.Log)
+	}
+	return res.Proof
+}
+
+type tmDepInput struct {
+	pf      *tmPf
+	src     *tmItem
+	valItem *tmItem
+	valID   int
+	proof   *merkle.Proof
+	proofBz []byte
+	kp      string
+	value   []byte
+	extraBz []byte
+}
+
+// resolvePf turns a proof descriptor into real bytes; ok=false for descriptors that cannot be realised (an existence
+// proof of something that is not stored in that version, an absence proof of something that is).
+func (f *tmFam) resolvePf(s string, marshal func(interface{}) ([]byte, error)) (*tmDepInput, bool) {
+	pf, ok := tmParsePf(s)
+	if !ok {
+		return nil, false
+	}
+	st := tmStore()
+	items := st.items[f.rt.name()]
+	in := &tmDepInput{pf: pf}
+	if pf.srcKind == 'x' {
+		in.proofBz = []byte{0xff, 0x00, 0xff}
+	} else {
+		in.src = items[pf.srcItem]
+		if in.src == nil {
+			return nil, false
+		}
+		present := in.src.stored != nil && in.src.since <= pf.srcVer
+		if (pf.srcKind == 'e') != present {
+			return nil, false
+		}
+		in.proof = st.proofOf(in.src, pf.srcVer)
+		bz, err := marshal(*in.proof)
+		if err != nil {
+			panic(err)
+		}
+		in.proofBz = bz
+	}
+	switch {
+	case pf.kp == "=":
+		in.kp = in.src.keyPath
+	case pf.kp == "-":
+		in.kp = ""
+	default:
+		j, _ := strconv.Atoi(pf.kp[1:])
+		if items[j] == nil {
+			return nil, false
+		}
+		in.kp = items[j].keyPath
+	}
+	if pf.val == "!" {
+		in.extraBz = []byte{0xff, 0x00, 0xff}
+		in.valID = -1
+	} else {
+		j, _ := strconv.Atoi(pf.val[1:])
+		if items[j] == nil {
+			return nil, false
+		}
+		in.valItem, in.valID, in.value = items[j], j, items[j].value
+		bz, err := marshal(ccmcosmos.CosmosProofValue{Kp: in.kp, Value: in.value})
+		if err != nil {
+			panic(err)
+		}
+		in.extraBz = bz
+	}
+	return in, true
+}
+
+func tmDepErrClass(err error) string {
+	if err == nil {
+		return "ok"
+	}
+	m := err.Error()
+	switch {
+	case strings.Contains(m, "is lower than epoch"):
+		return "reject:low"
+	case strings.Contains(m, "you must commit the header"):
+		return "reject:nohdr"
+	case strings.Contains(m, "height of your header is"):
+		return "reject:height"
+	case strings.Contains(m, "unmarshal proof value err"):
+		return "reject:pv"
+	case strings.Contains(m, "unmarshal proof err"):
+		return "reject:proof"
+	case strings.Contains(m, "proof size wrong"):
+		return "reject:proofsize"
+	case strings.Contains(m, "storage key length not correct"):
+		return "reject:keylen"
+	case strings.Contains(m, "storage key not from ccmc"):
+		return "reject:keyprefix"
+	case strings.Contains(m, "wrong module for proof"):
+		return "reject:module"
+	case strings.Contains(m, "Kp is nil"):
+		return "reject:kp"
+	case strings.Contains(m, "proof error"), strings.Contains(m, "VerifyValue error"):
+		return "reject:verify"
+	case strings.Contains(m, "deserialize merkleValue error"):
+		return "reject:txparam"
+	case strings.Contains(m, "check done transaction error"):
+		return "reject:done"
+	case strings.Contains(m, "heimdallSpan UnmarshalBinaryBare error"), strings.Contains(m, "from heimdall"):
+		return "reject:span"
+	}
+	return tmErrClass(err)
+}
+
+func (f *tmFam) execDep(r *hx.Run, op []string) string {
+	rn := f.rt.name()
+	if rn == "heimdall" {
+		return "bad-op"
+	}
+	if op[0] == "sidechain" {
+		if len(op) != 1 {
+			return "bad-op"
+		}
+		putSideChain(f.db, tmChainID, 12, tmCCMC, nil)
+		return "ok"
+	}
+	if len(op) != 4 {
+		return "bad-op"
+	}
+	var hb *tmBuilt
+	if op[1] != "-" {
+		var ok bool
+		if hb, ok = f.built[op[1]]; !ok {
+			return "bad-op"
+		}
+	}
+	h64, err := strconv.ParseUint(op[2], 10, 32)
+	if err != nil {
+		return "bad-op"
+	}
+	marshal := hscosmos.Cdc.MarshalBinaryBare
+	if rn == "okex" {
+		marshal = okex.NewCDC().MarshalBinaryBare
+	}
+	in, ok := f.resolvePf(op[3], marshal)
+	if !ok {
+		return "bad-op"
+	}
+	p := &ccmcom.EntranceParam{SourceChainID: tmChainID, Height: uint32(h64), Proof: in.proofBz, RelayerAddress: []byte{}, Extra: in.extraBz}
+	if hb != nil {
+		p.HeaderOrCrossChainMsg = hb.bytes
+	}
+	sink := common.NewZeroCopySink(nil)
+	p.Serialization(sink)
+	pre := tmReadTracked(f.db)
+	ns := newNativeAnon(f.db, sink.Bytes())
+	var tx *ccmcom.MakeTxParam
+	if rn == "cosmos" {
+		tx, err = ccmcosmos.NewCosmosHandler().MakeDepositProposal(ns)
+	} else {
+		tx, err = ccmokex.NewHandler().MakeDepositProposal(ns)
+	}
+	post := tmReadTracked(f.db)
+	res := tmDepErrClass(err)
+	// the property on the verdict
+	if pre.ok && post.ok && post.height < pre.height {
+		r.Viol("C30:"+rn+":height-decreased", fmt.Sprintf("tracked height went from %d to %d in a deposit", pre.height, post.height))
+	}
+	if !tmSameTracked(pre, post) {
+		if !pre.ok || hb == nil || hb.hash == nil && hb.vh == nil {
+			r.Viol("C30:"+rn+":deposit-changed-info-without-header", "a deposit changed the tracked epoch info without a decodable header")
+		} else {
+			f.justify(r, "deposit", op[1], hb, pre)
+			want := tmTracked{ok: true, height: hb.height, next: hb.nvh, block: hb.hash, chain: hb.chain}
+			if !tmSameTracked(want, post) || !(hb.height > pre.height) || !hb.nvhDiffer {
+				r.Viol("C30:"+rn+":tracked-info-unexplained", "the tracked info after a deposit is not the submitted header at a greater height with a changed validator set")
+			}
+		}
+	}
+	if err == nil {
+		if !pre.ok || hb == nil {
+			r.Viol("C30:"+rn+":deposit-accepted-without-header", "a deposit was accepted without tracked info or header")
+		} else {
+			f.justify(r, "deposit", op[1], hb, pre)
+			if hb.height < pre.height {
+				r.Viol("C30:"+rn+":deposit-below-tracked-height", fmt.Sprintf("deposit accepted with a header at height %d below the tracked height %d", hb.height, pre.height))
+			}
+			st := tmStore()
+			exists := in.valItem != nil && bytes.Equal(in.valItem.value, in.value) && st.holds(in.valItem, hb.appHash)
+			if !exists {
+				key := "C30:" + rn + ":deposit-accepted-without-existence"
+				if in.kp == "" {
+					key = "C30:" + rn + ":deposit-accepted-on-absence-proof"
+				}
+				r.Viol(key, fmt.Sprintf("deposit %s accepted although the message (item %d) is not stored in the state committed by the header's app hash (key path %q, proof %c)",
+					op[3], in.valID, in.kp, in.pf.srcKind))
+			}
+			if tx == nil || in.valItem == nil {
+				r.Viol("C30:"+rn+":deposit-returned-other-message", "accepted deposit returned no message")
+			} else {
+				want := new(ccmcom.MakeTxParam)
+				if want.Deserialization(common.NewZeroCopySource(in.value)) != nil || !bytes.Equal(want.CrossChainID, tx.CrossChainID) || !bytes.Equal(want.Args, tx.Args) {
+					r.Viol("C30:"+rn+":deposit-returned-other-message", "the returned message is not the decoding of the proven value")
+				}
+			}
+		}
+		res = fmt.Sprintf("ok:tx%d", in.valID)
+	}
+	return res + " " + f.showTracked(post)
+}
+
+func (f *tmFam) execSpan(r *hx.Run, op []string) string {
+	if f.rt.name() != "heimdall" || len(op) != 3 {
+		return "bad-op"
+	}
+	hb, ok := f.built[op[1]]
+	if !ok || (hb.hash == nil && hb.vh == nil) {
+		return "bad-op"
+	}
+	cdc := ptypes.NewCDC()
+	in, ok := f.resolvePf(op[2], cdc.MarshalBinaryBare)
+	if !ok || in.proof == nil || in.valItem == nil {
+		return "bad-op"
+	}
+	var hdr polygon.CosmosHeader
+	if err := cdc.UnmarshalBinaryBare(hb.bytes, &hdr); err != nil {
+		return "bad-op"
+	}
+	pre := tmReadTracked(f.db)
+	proof := &polygon.CosmosProof{Value: polygon.CosmosProofValue{Kp: in.kp, Value: in.value}, Proof: *in.proof, Header: hdr}
+	span, err := polygon.VerifySpan(newNativeAnon(f.db, nil), tmChainID, proof)
+	post := tmReadTracked(f.db)
+	if !tmSameTracked(pre, post) {
+		r.Viol("C30:heimdall:span-changed-info", "VerifySpan changed the tracked epoch info")
+	}
+	res := tmDepErrClass(err)
+	if err == nil {
+		if !pre.ok {
+			r.Viol("C30:heimdall:span-accepted-without-trust-root", "VerifySpan succeeded without tracked info")
+		} else {
+			f.justify(r, "span", op[1], hb, pre)
+			if !(bytes.Equal(in.valItem.value, in.value) && tmStore().holds(in.valItem, hb.appHash)) {
+				r.Viol("C30:heimdall:span-accepted-without-existence", fmt.Sprintf("span %s accepted although it is not stored in the state committed by the header's app hash", op[2]))
+			}
+			if span == nil || span.ID != uint64(100+in.valID) {
+				r.Viol("C30:heimdall:span-returned-other-value", "the returned span is not the decoding of the proven value")
+			}
+		}
+		res = fmt.Sprintf("ok:tx%d", in.valID)
+	}
+	return res + " " + f.showTracked(post)
+}
+
+// ---- generator ----
+
+func (f *tmFam) genDep(r *hx.Run) {
+	rn := f.rt.name()
+	r.Rule("deposits of the " + rn + " router: real existence / absence proofs from a committed multistore (IAVL, two versions) x " +
+		"header shapes (justified, below two thirds, epoch-changing, other app hash, heights below/at/above the tracked one, " +
+		"undecodable, missing) x proof shapes (right, other value, other key path, other version, empty key path, absence proof " +
+		"of a crafted message, undecodable proof / proof value, non-message value, wrong module / contract / key length, replay); " +
+		"distinct non-trivial = (block version, shape, outcome)")
+	rounds := r.Pick(4, 80)
+	id := 0
+	vers := []uint64{10}
+	if rn == "cosmos" {
+		vers = []uint64{10, 11}
+	}
+	for round := 0; round < rounds; round++ {
+		for _, ver := range vers {
+			for n := 1; n <= 4; n++ {
+				id++
+				r.Case(fmt.Sprintf("tmdep%s-%d-%d-%d", rn, ver, n, id))
+				g := &tmGen{r: r, f: f, rn: rn, ver: ver, chain: "chain-A"}
+				g.height = int64(r.Rng.Intn(50)) + 5
+				g.cur = tmRandSet(r, n)
+				verb := "dep"
+				arg := func(h int64) string { return fmt.Sprintf(" %d ", h) }
+				if rn == "heimdall" {
+					verb = "span"
+					arg = func(h int64) string { return " " }
+				}
+				label := func(l, res string) string {
+					cls := tmOutcomeClass(res)
+					r.Nontrivial(fmt.Sprintf("%d/%s/%s", ver, l, cls))
+					r.Hist("shape." + l)
+					r.Hist("outcome." + cls)
+					if id%13 == 1 && (l == "absence-of-crafted" || l == "right") {
+						r.Sample(map[string]interface{}{"router": rn, "shape": l, "outcome": res})
+					}
+					return cls
+				}
+				registered := true
+				if rn == "okex" {
+					if r.Rng.Chance(1, 6) {
+						registered = false
+					} else {
+						r.Do("sidechain")
+					}
+				}
+				mkHdr := func(h int64, app string, k int) string {
+					s := g.good(h, g.cur)
+					s.nvh = "="
+					s.app = app
+					if k >= 0 {
+						g.shape(s, k)
+					}
+					return g.def(s)
+				}
+				// before genesis
+				if r.Rng.Chance(1, 4) {
+					nm := mkHdr(g.height+1, "r1", -1)
+					label("no-trust-root", r.Do(verb+" "+nm+arg(g.height+1)+"e0r1/=/v0"))
+				}
+				gen := &tmHdrSpec{ver: ver, chain: g.chain, height: g.height, vh: "x9", nvh: g.hashOf(g.cur, ver), nilCommit: true}
+				r.Do("genesis " + g.def(gen))
+				h0 := g.height + int64(r.Rng.Intn(3)) // at or above the tracked height
+				hA := mkHdr(h0, "r1", 1)               // least power above two thirds
+				hB := mkHdr(h0, "r2", 0)
+				hC := mkHdr(h0, "x0", 0)
+				hBad := mkHdr(h0, "r1", 2) // greatest power not above two thirds
+				hSig := mkHdr(h0, "r1", 7)
+				a := arg(h0)
+				if !registered {
+					label("unregistered-side-chain", r.Do(verb+" "+hA+a+"e0r1/=/v0"))
+					label("unregistered-short-proof-key", r.Do(verb+" "+hA+a+"e8r1/=/v8"))
+					continue
+				}
+				label("other-value", r.Do(verb+" "+hA+a+"e1r1/=/v0"))
+				label("other-key-path", r.Do(verb+" "+hA+a+"e1r1/k0/v1"))
+				label("proof-of-other-version", r.Do(verb+" "+hA+a+"e2r2/=/v2"))
+				label("stored-later-than-header-state", r.Do(verb+" "+hA+a+"e0r2/=/v0"))
+				label("header-app-hash-arbitrary", r.Do(verb+" "+hC+a+"e1r1/=/v1"))
+				label("empty-key-path-existence-proof", r.Do(verb+" "+hA+a+"e1r1/-/v1"))
+				label("absence-of-crafted", r.Do(verb+" "+hA+a+fmt.Sprintf("a%dr1/-/v%d", 5+r.Rng.Intn(2), 5+r.Rng.Intn(2))))
+				label("absence-of-crafted", r.Do(verb+" "+hA+a+"a5r1/-/v5"))
+				label("absence-of-crafted-other-version", r.Do(verb+" "+hA+a+"a6r2/-/v6"))
+				label("absence-proof-with-key-path", r.Do(verb+" "+hA+a+"a5r1/=/v5"))
+				label("absence-proof-of-not-yet-stored", r.Do(verb+" "+hA+a+"a2r1/=/v2"))
+				label("absence-proof-empty-path-not-yet-stored", r.Do(verb+" "+hA+a+"a2r1/-/v2"))
+				label("not-a-message", r.Do(verb+" "+hA+a+"e3r1/=/v3"))
+				if rn == "heimdall" {
+					label("span-conversion-fails", r.Do(verb+" "+hA+a+"e4r1/=/v4"))
+				} else {
+					label("undecodable-proof", r.Do(verb+" "+hA+a+"x/k0/v0"))
+					label("undecodable-proof-value", r.Do(verb+" "+hA+a+"e0r1/=/!"))
+					label("height-parameter-differs", r.Do(verb+" "+hA+arg(h0+1)+"e0r1/=/v0"))
+					if g.height > 0 {
+						label("height-parameter-below-tracked", r.Do(verb+" "+hA+arg(g.height-1)+"e0r1/=/v0"))
+					}
+					label("no-header", r.Do(verb+" -"+a+"e0r1/=/v0"))
+					r.Do("raw junk ff00ff")
+					label("undecodable-header", r.Do(verb+" junk"+a+"e0r1/=/v0"))
+				}
+				label("wrong-module", r.Do(verb+" "+hA+a+"e9r1/=/v9"))
+				if rn == "okex" {
+					label("other-contract-key", r.Do(verb+" "+hA+a+"e7r1/=/v7"))
+					label("short-proof-key", r.Do(verb+" "+hA+a+"e8r1/=/v8"))
+				}
+				label("header-below-two-thirds", r.Do(verb+" "+hBad+a+"e0r1/=/v0"))
+				label("header-bad-signature", r.Do(verb+" "+hSig+a+"e0r1/=/v0"))
+				label("right", r.Do(verb+" "+hA+a+"e0r1/=/v0"))
+				label("replay", r.Do(verb+" "+hA+a+"e0r1/=/v0"))
+				label("right-version-2", r.Do(verb+" "+hB+a+"e2r2/=/v2"))
+				label("right-other-item", r.Do(verb+" "+hB+a+"e1r2/=/v1"))
+				if rn == "heimdall" {
+					continue
+				}
+				// an epoch-changing header in a deposit: the info advances (also when the proof part fails afterwards)
+				next := tmRandSet(r, 1+r.Rng.Intn(4))
+				hE := g.height + 3 + int64(r.Rng.Intn(3))
+				sE := g.good(hE, next)
+				sE.app = "r2"
+				if r.Rng.Bool() {
+					g.shape(sE, 1)
+				}
+				nE := g.def(sE)
+				pf := "e0r2/=/v0"
+				if r.Rng.Bool() {
+					pf = "e1r2/k0/v1" // the proof part fails
+				}
+				res := r.Do(verb + " " + nE + arg(hE) + pf)
+				label("epoch-changing-header", res)
+				// the old set is no longer trusted; the new one is
+				label("old-set-after-epoch-change", r.Do(verb+" "+mkHdr(hE+1, "r2", 0)+arg(hE+1)+"e0r2/=/v0"))
+				g.cur, g.height = next, hE
+				label("new-set-after-epoch-change", r.Do(verb+" "+mkHdr(hE, "r2", 0)+arg(hE)+"e0r2/=/v0"))
+				label("below-new-tracked-height", r.Do(verb+" "+mkHdr(hE-1, "r2", 0)+arg(hE-1)+"e0r2/=/v0"))
+				// a sync batch after deposits still works on the same info
+				s := g.good(hE+2, tmRandSet(r, 2))
+				label("sync-after-deposit", r.Do("sync "+g.def(s)))
+			}
+		}
+	}
+}
+
+var _ = hex.EncodeToString
